@@ -52,6 +52,10 @@ func (ex *Exec) allowedMods(st *State, fr *Frame) []modLoc {
 // lvalueLocs: x.f -> (class T.f, ref x); x.$g; x.f[*] -> elements of the slice x.f; *p
 func (ex *Exec) lvalueLocs(env *SpecEnv, e ast.Expr) []modLoc {
 	switch x := e.(type) {
+	case *ast.Ident:
+		if strings.HasPrefix(x.Name, "ghost_") {
+			return []modLoc{{class: "G:$" + strings.TrimPrefix(x.Name, "ghost_"), ref: Zero}}
+		}
 	case *ast.ParenExpr:
 		return ex.lvalueLocs(env, x.X)
 	case *ast.SelectorExpr:
@@ -492,6 +496,10 @@ func (ex *Exec) staticModClasses(sp *FuncSpec, fn *ssa.Function, sig *types.Sign
 		return nil
 	}
 	switch x := e.(type) {
+	case *ast.Ident:
+		if strings.HasPrefix(x.Name, "ghost_") {
+			return []string{"G:$" + strings.TrimPrefix(x.Name, "ghost_")}
+		}
 	case *ast.SelectorExpr:
 		bt := typeOf(x.X)
 		if bt != nil {
